@@ -40,6 +40,9 @@ UNION_CLAUSES = [('union.sound', 'olang(*a).union(olang(*b)).subset_of(olang(r))
                  ('union.some', 'r is Some ==> *a is Some || *b is Some', ['C02', 'C16'])]
 NEW_LITERAL_CLAUSES = [('new_literal.lang', 'lang(r) == lit_lang(cluster.graphemes@)', ['C02', 'C16']), ('new_literal.shape', 'r is Literal && r->Literal_0 == cluster', ['C02'])]
 NEW_ALTERNATION_ENSURES = ['lang(r) == alt_lang(exprs@)']
+# is_each_test_case_matched_after_rotating_alternations: verified here, assumed with the same text in unit regexp
+ROTATE_CLAUSES = [('rotate.lang_preserved', 'lang(*final(expr)) == lang(*old(expr))', ['C01', 'C08', 'C16']),
+                  ('rotate.positive_verdict_is_for_the_returned_arrangement', 'r ==> selfcheck_verdict(*regex, test_cases@) && *final(expr) == *old(expr)', ['C08'])]
 
 def build(repo, spec_dir, canary=False):
     b = Builder(NAME, repo, canary)
@@ -185,10 +188,15 @@ impl<'a> Expression<'a> {""")
     b.emit('pub struct Regex { pub x: u8 }')
     b.type_item('regexp.rs', r"^pub struct RegExp<'a> \{")
     b.emit("impl<'a> RegExp<'a> {")
-    b.assumed_fn('regexp.rs', 'regex_matches_all_test_cases', within="^impl<'a> RegExp<'a> \\{", ensures=[], why='regex engine call; only used as a loop guard')
+    b.emit('''    // ghost bookkeeping of the self-check: the verdict is a function of the compiled regex and the test cases
+}
+pub uninterp spec fn selfcheck_verdict(r: Regex, test_cases: Seq<String>) -> bool;
+impl<'a> RegExp<'a> {''')
+    b.assumed_fn('regexp.rs', 'regex_matches_all_test_cases', within="^impl<'a> RegExp<'a> \\{", ensures=['r == selfcheck_verdict(*regex, test_cases@)'], why='regex engine call; the verdict is a function of its two arguments')
     b.verified_fn('regexp.rs', 'is_each_test_case_matched_after_rotating_alternations', within="^impl<'a> RegExp<'a> \\{", props=['C07'], fname='RegExp::rotate',
-                  clauses=[Clause('rotate.lang_preserved', 'lang(*final(expr)) == lang(*old(expr))', ['C01', 'C08', 'C16'])],
-                  loops={1: [('rotate.lang_preserved@loop1', ['C01', 'C08', 'C16'], 'lang(*expr) == lang(*old(expr))')]})
+                  clauses=[Clause(*c) for c in ROTATE_CLAUSES],
+                  loops={1: [('rotate.lang_preserved@loop1', ['C01', 'C08', 'C16'], 'lang(*expr) == lang(*old(expr))'),
+                             ('rotate.positive_verdict_is_for_the_returned_arrangement@loop1', ['C08'], '*expr == *old(expr) || !selfcheck_verdict(*regex, test_cases@)')]})
     b.emit('}\n} // mod code')
     b.emit(TRUSTED_PRELUDE)
     b.emit(eq_impl('Grapheme')); b.emit(eq_impl('Quantifier')); b.emit(eq_impl("Expression<'a>", "<'a>"))
